@@ -35,9 +35,10 @@ UpdOpts ==
      U(<<>>, <<>>, <<>>, <<1>>, <<>>, <<>>),                  \* remove a service
      U(<<>>, <<>>, <<>>, <<>>, <<2>>, <<>>),                  \* add a URI
      U(<<>>, <<>>, <<>>, <<>>, <<>>, <<1>>),                  \* remove a URI
-     U(<<K(3, 2), K(2, 1)>>, <<1>>, <<K(1, 1)>>, <<2>>, <<1>>, <<2>>)}   \* everything at once, disjoint ids
+     U(<<K(3, 2), K(2, 1)>>, <<1>>, <<K(1, 1)>>, <<2>>, <<1>>, <<2>>),   \* everything at once, disjoint ids
+     U(<<K(1, 3)>>, <<1>>, <<K(2, 2)>>, <<2>>, <<>>, <<>>)}   \* rotation keeping the id: removed, then added anew
 
-\* the document after an update: removals, then additions (ids of one update do not overlap)
+\* the document after an update: removals, then additions (an id both removed and added is added anew, at the end)
 ApplyUpdate(d, u) ==
     [d EXCEPT !.aka  = AddURIs(RemoveURIs(@, u.remAka), u.addAka),
               !.keys = AddEntries(RemoveIds(@, u.remKeys), u.addKeys),
